@@ -107,11 +107,11 @@ def mustif_profile(name: str, nq: int, nt: int, oracles, configs=None, inputs=No
     return Profile(name, grams, configs or cfgs, inputs or inputs_exhaustive(4, 5, cap_q=70, cap_t=300), oracles, **kw)
 
 
-def atoms_profile(name: str, oracles, qlen: int = 3, tlen: int = 4, cap_q: int = 260, cap_t: int = 2500, configs=None, exclude=(), **kw) -> Profile:
+def atoms_profile(name: str, oracles, qlen: int = 3, tlen: int = 4, cap_q: int = 260, cap_t: int = 2500, configs=None, exclude=(), inputs=None, **kw) -> Profile:
     """Every leaf rule the model has an atom for (ascii classes, utf8 ranges, maximum_rule, rep_one_min_max, predicates, …) alone
     and in the simple contexts where a leaf that consumes before failing shows (corpus.zoo_grammars), on strings over digits,
     letters, eol bytes and a two-byte UTF-8 sequence."""
     def grams(rng: random.Random, tier: str):
         return corpus.zoo_grammars(name, exclude=exclude)
     return Profile(name, grams, configs or amr_configs(ams=((1, 'r'), (1, 'o'))),
-                   inputs_exhaustive(qlen, tlen, cap_q=cap_q, cap_t=cap_t, alpha=corpus.ZOO_ALPHA, longer=2), oracles, **kw)
+                   inputs or inputs_exhaustive(qlen, tlen, cap_q=cap_q, cap_t=cap_t, alpha=corpus.ZOO_ALPHA, longer=2), oracles, **kw)
